@@ -597,7 +597,11 @@ def run_cycle(case):
     t = case["target"]
     wf, placed = build(case)
     kids = [wf.children[f"n{i}"] for i in range(len(case["kids"]))]
-    X = kids[t]
+    outer = kids[t]
+    X = outer
+    for part in (case.get("rel") or "").split("/"):      # the driven node may sit INSIDE the kid (the kid stays idle)
+        if part:
+            X = X.children[part]
     for i, k in enumerate(kids):
         if i < t:
             k.run(emit_ran_signal=False)
@@ -614,7 +618,7 @@ def run_cycle(case):
     X.recovery = None
     exmap = exmap_of(placed)
     heap = reflect(root, exmap)
-    remember(case, None if heap is None else heap[0], None if heap is None else heap[1][id(X)])
+    remember(case, None if heap is None else heap[0], None if heap is None else (heap[1][id(X)], heap[1][id(outer)]))
     placed_x = [(xp, n, sp, ex) for (xp, n, sp, ex) in placed if n is X]
     if root is X:
         placed_x = [("/" + X.label, n, sp, ex) for (xp, n, sp, ex) in placed_x]
@@ -622,8 +626,17 @@ def run_cycle(case):
     log = []
     recs = []           # per op: [out before the op, running after, failed after, jobs pending after]
     delivered = []      # per completion: [succeeded, outputs shown, what a local run gives for the inputs shown]
-    xpath = "/" + root.label if root is X else f"/wf/n{t}"
+    xpath = "/" + root.label if root is X else f"/wf/n{t}" + ("/" + case["rel"] if case.get("rel") else "")
     nodes.CALLS.clear()
+    sent = None         # the inputs the node showed when it was submitted
+    extra = []          # [signature, text] found by the driver itself (needs live objects)
+
+    def all_values():
+        return [[p, [[pc, ch.label, val(ch.value)] for pc, chs in panels(n) if pc in (0, 1) for ch in chs]]
+                for p, n in walk(root, "/" + root.label)]
+
+    def shown():
+        return [[ch.label, val(ch.value)] for ch in X.inputs]
 
     def first_pending():
         pend = c.pending()
@@ -633,16 +646,21 @@ def run_cycle(case):
         return True
     for op in case["ops"]:
         out_before = len(c.pending()) > 0
-        if op[0] == "set":
+        if op[0] in ("set", "oset"):
+            before = all_values()
             try:
-                X.inputs[op[1]].value = op[2]
+                (X if op[0] == "set" else outer).inputs[op[1]].value = op[2]
                 log.append("ok")
             except RuntimeError:
                 log.append("RuntimeError")
+                if all_values() != before:
+                    extra.append(["refused-but-changed", f"the refused assignment {op} changed a channel value"])
         elif op[0] == "run":
             try:
                 r = X.run()
                 log.append("Future" if isinstance(r, cf.Future) else "value")
+                if isinstance(r, cf.Future):
+                    sent = shown()
             except Exception as e:      # noqa
                 log.append(type(e).__name__)
         elif op[0] == "complete":
@@ -650,9 +668,14 @@ def run_cycle(case):
             if not pend:
                 log.append("none")
             else:
+                if sent is not None and shown() != sent:
+                    extra.append(["changed-while-out", f"sent out with {sent}, shows {shown()} before its job ended"])
                 with nodes.poll_hook(first_pending):     # executors that exist only on the far side
                     pend[0][0].complete(pend[0][1])
                 log.append("done")
+                if sent is not None and not X.failed and shown() != sent:
+                    extra.append(["shown-not-sent", f"sent out with {sent}, shows {shown()} after coming back"])
+                sent = None
                 delivered.append([not X.failed and not X.running, [[ch.label, val(ch.value)] for ch in X.outputs],
                                   shown_reference(case, X)])
         elif op[0] == "clear":
@@ -663,13 +686,15 @@ def run_cycle(case):
     # third component: every completion happened in a state that meets the hypotheses of the merge theorem
     # (computed by the model from the reflected heap; the implementation side is the constant "yes")
     return {"model": [render(root, exmap), log, [1 for d in delivered]], "delivered": delivered, "lost": lost, "pending": len(c.pending()),
-            "xpath": xpath, "running": bool(X.running), "failed": bool(X.failed), "recs": recs}
+            "xpath": xpath, "running": bool(X.running), "failed": bool(X.failed), "recs": recs, "extra": extra}
 
 
 # =========================================================================== model
-def op_coq(op):
+def op_coq(op, outer=0):
     if op[0] == "set":
         return f"OSet {cs(op[1])} {cz(op[2])}"
+    if op[0] == "oset":
+        return f"OSetOn {cn(outer)} {cs(op[1])} {cz(op[2])}"
     return {"run": "ORun", "complete": "OComplete", "clear": "OClear"}[op[0]]
 
 
@@ -704,7 +729,7 @@ def model_term(case):
     mode = os.environ.get("VERIF_C10_MODE", "AsWritten")     # Unpatched: the merge before build/c10_fix.diff (for comparisons only)
     if case["kind"] == "flow":
         return f"flow_obs {mode} {heap} 0%nat {cb(bool(case.get('probe')) and not is_real(case))}"
-    return f"cycle_obs {mode} {heap} 0%nat {cn(target)} {cl(op_coq(o) for o in case['ops'])}"
+    return f"cycle_obs {mode} {heap} 0%nat {cn(target[0])} {cl(op_coq(o, target[1]) for o in case['ops'])}"
 
 
 def modelled(case):
@@ -762,7 +787,7 @@ def under(path, roots):
 
 
 # =========================================================================== oracle
-LOW = ("lock-wf",)     # the signature the recorded finding may explain: reported last
+LOW = ("lock-wf", "stale", "shown-not-sent")     # signatures a recorded finding may explain: reported last
 
 
 def structure_violations(r, path, out):
@@ -841,13 +866,18 @@ def violations(case, obs):
     else:
         log = obs["model"][1]
         x = case["kids"][case["target"]]
-        x_merges = x["t"] != "leaf" and x.get("ex") in BOUNDARY
+        if case.get("rel"):
+            x_merges = INNER[x["cls"]][case["rel"]] == "macro" and (x.get("inner") or {}).get(case["rel"]) in BOUNDARY
+        else:
+            x_merges = x["t"] != "leaf" and x.get("ex") in BOUNDARY
+        for sig, text in obs.get("extra", []):
+            out.append((sig, text, obs["xpath"]))
         merged, stuck, k = False, False, 0
         run_before, failed_before = False, False
         for op, r, rec in zip(case["ops"], log, obs["recs"]):
             out_before, running, failed, pending = rec
             low = merged or stuck
-            if op[0] == "set":
+            if op[0] in ("set", "oset"):      # oset: the enclosing macro's input forwards into the driven node's input
                 if out_before and r != "RuntimeError":
                     out.append(("lock-merged" if low else "lock",
                                 f"assignment to input {op[1]} accepted while the node is out", obs["xpath"]))
@@ -927,7 +957,36 @@ def known(case, obs, verdict):
     subject = verdict.rsplit("[subject=", 1)[1].rstrip("]") if "[subject=" in verdict else "None"
     if sig == "lock-wf" and case["kind"] == "flow" and case.get("root_ex") and subject == "/wf":
         return "C10-workflow-inputs-unlocked"
+    if sig in ("stale", "shown-not-sent") and relink_diverges(case):
+        return "C10-relink-pushes-parent-value"
     return None
+
+
+def relink_diverges(case):
+    """cause predicate: the driven node is a nested macro value-linked to the enclosing macro's inputs, it is merged
+    from a pickled copy, and it was sent out with an input that differs from the enclosing macro's (an assignment
+    made directly at the nested node's input: links are one-directional, the enclosing input is not updated)"""
+    if case["kind"] != "cycle" or not case.get("rel"):
+        return False
+    kid = case["kids"][case["target"]]
+    if (kid.get("inner") or {}).get(case["rel"]) not in BOUNDARY or INNER[kid["cls"]][case["rel"]] != "macro":
+        return False
+    labels = C().MACROS[kid["cls"]][1]
+    outer = {l: (kid["ins"][j][1] if kid["ins"][j][0] == "c" else None) for j, l in enumerate(labels)}
+    inner = dict(outer)
+    out = False
+    for op in case["ops"]:
+        if op[0] == "set" and not out:
+            inner[op[1]] = op[2]
+        elif op[0] == "oset" and not out:
+            outer[op[1]] = inner[op[1]] = op[2]
+        elif op[0] == "run" and not out:
+            if inner != outer:
+                return True
+            out = True
+        elif op[0] == "complete":
+            out = False
+    return False
 
 
 # =========================================================================== generators
@@ -1022,6 +1081,40 @@ def gen_cycle(rng):
     return {"kind": "cycle", "kids": kids, "target": t, "parentless": parentless, "ops": ops}
 
 
+NESTED = [("MF", "inner", ["x"]), ("ME", "deep", ["x", "y"])]     # (class, nested macro whose inputs are value-linked, labels)
+
+
+def gen_nested(rng):
+    """the driven node is a macro INSIDE an idle macro whose inputs forward straight into it"""
+    cls, rel, labels = rng.choice(NESTED)
+    spec = rng.choice(["pb", "pb", "pb", "ipb", "man"])
+    kid = {"t": "macro", "cls": cls, "ins": [["c", rng.randint(0, 20)] for _ in labels], "ex": None, "inner": {rel: spec}}
+    diverge = rng.random() < 0.25        # inner-level assignments while idle (not mirrored upwards)
+    ops = []
+    for _ in range(rng.randint(3, 9)):
+        r = rng.random()
+        if r < 0.3:
+            ops.append(["oset", rng.choice(labels), rng.randint(0, 60)])
+        elif r < 0.45:
+            ops.append(["set", rng.choice(labels), rng.randint(0, 60)])
+        elif r < 0.7:
+            ops.append(["run"])
+        else:
+            ops.append(["complete"])
+    if not diverge:      # keep inner-level assignments to the time the node is out (they must bounce)
+        out, kept = False, []
+        for op in ops:
+            if op[0] == "run":
+                out = True
+            elif op[0] == "complete":
+                out = False
+            if op[0] == "set" and not out:
+                op = ["oset", op[1], op[2]]
+            kept.append(op)
+        ops = kept
+    return {"kind": "cycle", "kids": [kid], "target": 0, "rel": rel, "parentless": False, "ops": ops}
+
+
 def enumerate_small():
     """sender s -> X -> receiver t with X a leaf / macro / nested macro, the three nodes, one inner node and the
     root independently local / manual / pickle boundary, every completion order of the (at most three) jobs"""
@@ -1082,6 +1175,8 @@ def generate(ctx):
         out.append(gen_flow(rng, rng.choice([2, 3, 4]) if ctx.quick else rng.choice([2, 3, 4, 5])))
     for _ in range(ctx.n(260, 2500)):
         out.append(gen_cycle(rng))
+    for _ in range(ctx.n(120, 1200)):
+        out.append(gen_nested(rng))
     if not ctx.quick:
         out.extend(enumerate_small())
     return out
